@@ -832,7 +832,10 @@ def _run(check, S, tmp, quick, rng):
     # ---- 3a. correspondence: model on the extracted abstract module vs real lint
     reqs, impl = [], []
     extraction_errors = []
+    subject_names = ['subject.py', 'conftest.py', '__main__.py', 'setup.py', 'test_subject.py', '__init__.py']
     for i, (label, src) in enumerate(mods):
+        # the linted file is called differently from module to module (nothing may depend on its name)
+        fname = os.path.join(tmp, subject_names[i % len(subject_names)])
         try:
             reqs.append(extract_module(S, project, src, fname, full_tables=(i % 40 == 0)))
         except Exception as e:  # noqa
